@@ -103,6 +103,26 @@ func TestProp_URL(t *testing.T) {
 		if !bytes.Equal(got, want) {
 			t.Fatalf("EncodeURL(%q, dataURI=%v) = %q, want %q", b, useData, got, want)
 		}
+		if rapid.IntRange(0, 399).Draw(t, "megabyte") == 0 {
+			// 256 KiB - 1 MiB of bytes that need no escape with the fragments at five places (the function moves the
+			// rest of the text for every escape: a long text full of escapes would take minutes), spare capacity of
+			// every kind
+			n := rapid.SampledFrom([]int{1 << 18, 1<<18 + 1, 1 << 19, 1 << 20}).Draw(t, "biglen")
+			var bigIn, bigWant []byte
+			for k := 0; k < 5; k++ {
+				fill := bytes.Repeat([]byte("0123456789012345"), n/80) // digits: no table of this check marks them
+				bigIn, bigWant = append(append(bigIn, b...), fill...), append(append(bigWant, want...), fill...)
+			}
+			spare := rapid.SampledFrom([]int{0, 4, 6, 64, 2 * len(bigIn)}).Draw(t, "bigspare")
+			bigIn = append(make([]byte, 0, len(bigIn)+spare), bigIn...)
+			if bigGot := parse.EncodeURL(bigIn, table); !bytes.Equal(bigGot, bigWant) {
+				i := 0
+				for i < len(bigGot) && i < len(bigWant) && bigGot[i] == bigWant[i] {
+					i++
+				}
+				t.Fatalf("EncodeURL(%q between runs of %d digits, spare capacity %d): %d bytes, want %d, first difference at %d", b, n/5, spare, len(bigGot), len(bigWant), i)
+			}
+		}
 		if !useData {
 			back := parse.DecodeURL(append([]byte(nil), got...))
 			if !bytes.Equal(back, b) {
@@ -249,7 +269,25 @@ func TestProp_DataURIAny(t *testing.T) {
 		}
 		// Mediatype on the same bytes, handed over without spare capacity (a read behind the argument panics)
 		exact := append(make([]byte, 0, len(b)), b...)
-		parse.Mediatype(exact[:len(b):len(b)])
+		mtAny, params := parse.Mediatype(exact[:len(b):len(b)])
+		// what it returns is the caller's: changed by the caller, the next call on the same bytes returns the same again
+		mtCopy, paramsCopy := string(mtAny), map[string]string{}
+		for k, v := range params {
+			paramsCopy[k] = v
+			delete(params, k)
+		}
+		if params != nil {
+			params["q"] = "0.8"
+		}
+		exact2 := append(make([]byte, 0, len(b)), b...)
+		mtAgain, paramsAgain := parse.Mediatype(exact2)
+		same := string(mtAgain) == mtCopy && len(paramsAgain) == len(paramsCopy)
+		for k, v := range paramsAgain {
+			same = same && paramsCopy[k] == v
+		}
+		if !same {
+			t.Fatalf("Mediatype(%q) gave (%q, %v); a second call, after the caller had changed the map it was given, gives (%q, %v)", b, mtCopy, paramsCopy, mtAgain, paramsAgain)
+		}
 		mt, data, err := parse.DataURI(append([]byte(nil), b...))
 		if err != nil && (mt != nil || data != nil) {
 			t.Fatalf("DataURI(%q) returns data together with error %v", b, err)
@@ -302,6 +340,22 @@ func TestProp_Mediatype(t *testing.T) {
 		for k, v := range gotParams {
 			if wv, ok := wantParams[strings.ToLower(k)]; !ok || wv != v {
 				t.Fatalf("Mediatype(%q) params %v, mime.ParseMediaType gives %v", s, gotParams, wantParams)
+			}
+		}
+		// the map is the caller's: what the caller does with it changes nothing for the next call on the same text
+		if gotParams != nil {
+			for k := range gotParams {
+				delete(gotParams, k)
+			}
+			gotParams["q"] = "0.8"
+			_, again := parse.Mediatype([]byte(s))
+			if len(again) != len(wantParams) {
+				t.Fatalf("Mediatype(%q) a second time, after the caller changed the map it was given: %v, want %v", s, again, wantParams)
+			}
+			for k, v := range again {
+				if wv, ok := wantParams[strings.ToLower(k)]; !ok || wv != v {
+					t.Fatalf("Mediatype(%q) a second time, after the caller changed the map it was given: %v, want %v", s, again, wantParams)
+				}
 			}
 		}
 		ev.Case("mediatype", s, len(keys) > 0, fmt.Sprintf("params=%d", len(keys)))
@@ -360,15 +414,23 @@ func TestProp_Bytes(t *testing.T) {
 		if got := parse.EqualFold(b, target); got != want {
 			t.Fatalf("EqualFold(%q, %q) = %v, want %v", b, target, got, want)
 		}
-		// ToLower in place
-		in, backing := gen.WithSpare(t, b)
-		guard := append([]byte(nil), backing[len(b):]...)
-		low := parse.ToLower(in)
-		if !bytes.Equal(low, asciiLower(b)) || (len(b) > 0 && &low[0] != &in[0]) {
-			t.Fatalf("ToLower(%q) = %q (in place: %v)", b, low, len(b) == 0 || &low[0] == &in[0])
+		// ToLower in place: the argument is a window of a larger buffer at any alignment, the bytes around it (upper-case
+		// letters: they would show) stay what they are; one argument in five is 32-300 bytes long
+		lb := b
+		if len(b) > 0 && rapid.IntRange(0, 4).Draw(t, "long") == 0 {
+			lb = bytes.Repeat(b, 1+rapid.IntRange(32, 300).Draw(t, "longlen")/len(b))
 		}
-		if !bytes.Equal(backing[len(b):], guard) {
-			t.Fatalf("ToLower wrote beyond its argument")
+		k := rapid.IntRange(0, 17).Draw(t, "windowoffset")
+		backing := bytes.Repeat([]byte("QWERTY[UIOP@ASDF"), 5+len(lb)/16)[:k+len(lb)+24]
+		copy(backing[k:], lb)
+		around := append(append([]byte(nil), backing[:k]...), backing[k+len(lb):]...)
+		in := backing[k : k+len(lb)]
+		low := parse.ToLower(in)
+		if !bytes.Equal(low, asciiLower(lb)) || (len(lb) > 0 && &low[0] != &in[0]) {
+			t.Fatalf("ToLower(%q) = %q (in place: %v)", lb, low, len(lb) == 0 || &low[0] == &in[0])
+		}
+		if now := append(append([]byte(nil), backing[:k]...), backing[k+len(lb):]...); !bytes.Equal(now, around) {
+			t.Fatalf("ToLower(%d bytes at offset %d of a buffer) changed the bytes around its argument: %q -> %q", len(lb), k, around, now)
 		}
 		// TrimWhitespace / IsAllWhitespace / Copy
 		tw := parse.TrimWhitespace(b)
